@@ -1,6 +1,6 @@
 """U1 -- VLQ codec: src/vlq.rs {B64, B64_CHARS, parse_vlq_segment_into, parse_vlq_segment,
 encode_vlq, generate_vlq_segment}"""
-from .common import emit_error_enum, byte_string_const_to_array, refpat_for
+from .common import emit_error_enum, byte_string_const_to_array, refpat_for, emit_free_fn
 
 NAME = 'u1_vlq'
 PROPS = ['C11', 'C06', 'C05', 'C03', 'C01', 'C02']
@@ -18,16 +18,8 @@ def build(u):
     text, origin = u.get_item_text('src/vlq.rs', r'(?m)^const B64\b', 'const B64', semi=True)
     u.emit_text('vlq::B64', text, origin)
 
-    f = u.get_fn('src/vlq.rs', 'parse_vlq_segment_into')
-    u.count('R-shim-call', f.rewrite(r'\b([a-z_][a-z0-9_]*)\.bytes\(\)', r'verif_str_bytes(\1)'))
-    u.emit_fn(f, 'vlq::parse_vlq_segment_into')
-
-    f = u.get_fn('src/vlq.rs', 'parse_vlq_segment')
-    u.emit_fn(f, 'vlq::parse_vlq_segment')
-
-    f = u.get_fn('src/vlq.rs', 'encode_vlq')
-    u.emit_fn(f, 'vlq::encode_vlq')
-
-    f = u.get_fn('src/vlq.rs', 'generate_vlq_segment')
-    refpat_for(f, u)
-    u.emit_fn(f, 'vlq::generate_vlq_segment')
+    emit_free_fn(u, 'src/vlq.rs', 'parse_vlq_segment_into', 'vlq::parse_vlq_segment_into',
+                 prep=lambda f: u.count('R-shim-call', f.rewrite(r'\b([a-z_][a-z0-9_]*)\.bytes\(\)', r'verif_str_bytes(\1)')))
+    emit_free_fn(u, 'src/vlq.rs', 'parse_vlq_segment', 'vlq::parse_vlq_segment')
+    emit_free_fn(u, 'src/vlq.rs', 'encode_vlq', 'vlq::encode_vlq')
+    emit_free_fn(u, 'src/vlq.rs', 'generate_vlq_segment', 'vlq::generate_vlq_segment', prep=lambda f: refpat_for(f, u))
